@@ -10,6 +10,7 @@ Open Scope string_scope.
 Definition dispatch (cmd : string) (input : string) : string :=
   match cmd with
   | "pm" => run_pm input
+  | "relay" => run_relay input
   | "lin" => run_lin input
   | "codegen-x86" => run_codegen_x86 input
   | "heap-x86" => run_heap_x86 input
